@@ -77,8 +77,8 @@ def classify(reason, dec, exp):
 
 
 def per_path(ctx, po, sh):
-    if po.kind != 'ok' or po.spec.kind != 'struct':
-        return
+    if po.kind != 'ok' or po.spec.kind != 'struct' or sh.get('parent'):
+        return          # bare #[parent] members have no slot designation here (C03 / C08 / C17 look at them)
     try:
         impls = decode.split_impls(po.tokens)
         decs = {}
